@@ -1,13 +1,13 @@
-(* driver.ml — reads the case files written by the Rust harnesses (one case per line, the
-   implementation's observations included), runs the extracted Coq model and the property
-   monitors on each, prints one FAIL line per disagreement and a SUMMARY line per kind. *)
+(* driver.ml — reads a case file written by a Rust harness (one case per line, the
+   implementation's observations included), hands each line to the handler registered for its
+   first token (drv_*.ml: they run the extracted Coq model and the property monitors), which
+   print one FAIL line per disagreement; then prints one SUMMARY line per kind. *)
 open Driver_util
 
 let () =
   let file = Sys.argv.(1) in
-  let ic = open_in file in
+  let ic = if file = "-" then stdin else open_in file in
   let lineno = ref 0 in
-  let seen_ti = ref false in
   (try
      while true do
        let line = input_line ic in
@@ -15,13 +15,11 @@ let () =
        let r = reader_of_line line in
        match peek r with
        | None -> ()
-       | Some "TI" -> ignore (next r); seen_ti := true; Drv_txindex.handle !lineno line r
-       | Some "TIEXH" -> ignore (next r); Drv_txindex.st.Drv_txindex.exhaustive <- next_int r
-       | Some "TIPANIC" ->
-           Drv_txindex.st.Drv_txindex.corr_fail <- Drv_txindex.st.Drv_txindex.corr_fail + 1;
-           Printf.printf "FAIL corr line=%d harness-level panic: %s\n" !lineno line
-       | Some other -> Printf.printf "FAIL parse line=%d unknown kind %s\n" !lineno other
+       | Some kind ->
+           (match Hashtbl.find_opt handlers kind with
+            | Some h -> ignore (next r); h !lineno line r
+            | None -> Printf.printf "FAIL parse line=%d unknown kind %s\n" !lineno kind)
      done
    with End_of_file -> ());
-  close_in ic;
-  if !seen_ti then Drv_txindex.summary ()
+  if file <> "-" then close_in ic;
+  List.iter (fun f -> f ()) !summaries
